@@ -354,7 +354,7 @@ func TestC03(t *testing.T) {
 			}
 		}
 		// and a stretch of the mixed workload under the same monitor
-		r.cfg = cdpCfg{maxGap: 400 * 24 * time.Hour}
+		r.cfg = cdpCfg{maxGap: 400 * 24 * time.Hour, govChanges: variant%2 == 0}
 		r.run(ev.Pick(600, 3000))
 		if round == 0 {
 			rec.Sample(map[string]interface{}{"variant": variant, "oplog_tail": r.tail(14)})
